@@ -1186,31 +1186,28 @@ func checkSingleDeployer(cx *CheckCtx, sp *ssa.Package) {
 					continue
 				}
 				nGuards++
-				guarded := false
-				for _, gb := range fn.Blocks {
-					ifi, isIf := gb.Instrs[len(gb.Instrs)-1].(*ssa.If)
-					if !isIf {
-						continue
+				guarded := flagGuards(fn, call.Block(), flag)
+				if !guarded {
+					// the submission may sit in a helper that is handed the parameters: then every call of the
+					// helper is on the true side of the flag in its caller
+					nCallers := 0
+					allGuarded := true
+					for _, cf := range allFuncs(sp) {
+						if cf.Blocks == nil {
+							continue
+						}
+						for _, cb := range cf.Blocks {
+							for _, ci := range cb.Instrs {
+								if cc, isC := ci.(ssa.CallInstruction); isC && cc.Common().StaticCallee() == fn {
+									nCallers++
+									if !flagGuards(cf, cb, flag) {
+										allGuarded = false
+									}
+								}
+							}
+						}
 					}
-					cond := ifi.Cond
-					neg := false
-					if u, isU := cond.(*ssa.UnOp); isU && u.Op == token.NOT {
-						cond, neg = u.X, true
-					}
-					if flagField(cond) != flag {
-						continue
-					}
-					side := gb.Succs[0]
-					if neg {
-						side = gb.Succs[1]
-					}
-					other := gb.Succs[1]
-					if neg {
-						other = gb.Succs[0]
-					}
-					if side.Dominates(call.Block()) && !blockReaches(other, call.Block(), gb) {
-						guarded = true
-					}
+					guarded = nCallers > 0 && allGuarded
 				}
 				cx.decide(guarded, "single-deployer", fmt.Sprintf("deploy.%s/%s-guards-%s", fn.Name(), flag, callee), "the submission is dominated by the true side of "+flag, fmt.Sprintf("%s submits %s without being dominated by the true side of %s: every committee member sends it", fn.Name(), callee, flag), w.pos(call.Pos()))
 			}
@@ -1838,4 +1835,30 @@ func checkIndexOnEqualSide(cx *CheckCtx, sp *ssa.Package) {
 	}
 	cx.count("index_searches", n)
 	cx.floor("index_searches", 1)
+}
+
+// flagGuards: block blk of fn is reached only through the true side of a test of the struct field named flag.
+func flagGuards(fn *ssa.Function, blk *ssa.BasicBlock, flag string) bool {
+	for _, gb := range fn.Blocks {
+		ifi, isIf := gb.Instrs[len(gb.Instrs)-1].(*ssa.If)
+		if !isIf {
+			continue
+		}
+		cond := ifi.Cond
+		neg := false
+		if u, isU := cond.(*ssa.UnOp); isU && u.Op == token.NOT {
+			cond, neg = u.X, true
+		}
+		if flagField(cond) != flag {
+			continue
+		}
+		side, other := gb.Succs[0], gb.Succs[1]
+		if neg {
+			side, other = other, side
+		}
+		if side.Dominates(blk) && !blockReaches(other, blk, gb) {
+			return true
+		}
+	}
+	return false
 }
